@@ -447,6 +447,16 @@ fn run_single(
             }
         }
     }
+    // faults `md5-bad` / `md5-good`: the request carries a Content-MD5 that does not / does match its body. The pinned backend
+    // ignores the header (the call succeeds either way); a backend that verifies it must refuse the upload BEFORE it takes effect
+    let content_md5: Option<String> = match fault {
+        "md5-bad" | "md5-good" => {
+            use md5::Digest;
+            let data: &[u8] = if fault == "md5-good" { &new_content } else { b"some other content" };
+            Some(base64_simd::STANDARD.encode_to_string(md5::Md5::digest(data)))
+        }
+        _ => None,
+    };
     // fault `declared`: no fault of its own; the request declares its Content-Length (the total of the data frames), as every
     // request that comes through the HTTP layer does - an error item of the body stream must count wherever it sits, also after
     // the last declared byte
@@ -517,6 +527,7 @@ fn run_single(
                 .checksum_crc32c(ck.1.clone())
                 .checksum_sha1(ck.2.clone())
                 .checksum_sha256(ck.3.clone())
+                .content_md5(content_md5.clone())
                 .build()
                 .unwrap();
             let d = drive(fs.put_object(req(input)), mode, &snapshot, &phase);
@@ -530,6 +541,7 @@ fn run_single(
                 .part_number(1)
                 .body(Some(body(real_parts.clone())))
                 .content_length(declared)
+                .content_md5(content_md5.clone())
                 .build()
                 .unwrap();
             let d = drive(fs.upload_part(req(input)), mode, &snapshot, &phase);
@@ -714,6 +726,13 @@ fn generate(rng: &mut Rng, n: u64, tier: &str, emit: &mut dyn FnMut(Vec<String>)
                 emit(mk("put_object", prev, fr(fs), format!("cksum-bad:{alg}"), true, false));
                 emit(mk("put_object", prev, fr(fs), format!("cksum-good:{alg}"), true, false));
             }
+        }
+        // a Content-MD5 that does not match the body (and one that does): refused before anything changes, or ignored
+        for op in ["put_object", "upload_part"] {
+            for fs in &frame_sets[..4] {
+                emit(mk(op, prev, fr(fs), "md5-bad".into(), op == "put_object", false));
+            }
+            emit(mk(op, prev, fr(&frame_sets[2]), "md5-good".into(), op == "put_object", false));
         }
         for fault in ["metafail", "infofail", "destdir"] {
             emit(mk("put_object", prev, fr(&frame_sets[2]), fault.into(), true, false));
